@@ -105,3 +105,72 @@ def family_softlist(tier, seed, n=None):
                {"op": "probe", "call": wcall([], "o1"), "paths": ["o1.a", "o1.l[0]", "o1.l[1]", "o1.l[2]"], "mode": "around", "nsol": 3, "cap": 100}]
         out.append({"id": "F16/softlist/%s/%d" % (agg, t), "world": world, "ops": ops, "tags": []})
     return out
+
+
+def fault_paths(body, prefix=()):
+    """every statement position of a block body, nested ones included (see worlds.Emit): positions before each statement, the
+    end of each body, and the same inside foreach / implies / if arms / else"""
+    out = []
+    for i, st in enumerate(body):
+        cur = prefix + (i,)
+        out.append(cur)
+        if st["k"] in ("foreach", "imp"):
+            out += fault_paths(st["body"], cur)
+        elif st["k"] == "if":
+            off = 0
+            for arm in st["arms"]:
+                out += [cur + (off + q[0],) + q[1:] for q in fault_paths(arm["body"])]
+                off += len(arm["body"]) + 1
+            if st["els"]:
+                out += [cur + (off + q[0],) + q[1:] for q in fault_paths(st["els"])]
+    out.append(prefix + (len(body),))
+    return out
+
+
+def family_nested_fault(tier, seed, n=None):
+    """user code raising INSIDE nested constraint contexts - the body of an if / else_if / else arm, of implies, of foreach, and
+    three levels deep - while a block is elaborated during construction and inside a randomize_with body: every context manager
+    on the way out has to pop what it pushed.  Afterwards: constructions, calls and truth tables behave as if nothing happened."""
+    IT = lambda v: {"k": "it", "v": v, "p": ""}
+    IX = lambda v: {"k": "ix", "v": v}
+    SUB = lambda l, i: {"k": "sub", "l": l, "i": i, "p": ""}
+    n1 = [E(B("le", F("a"), lit(3))),
+          {"k": "if", "arms": [{"c": B("eq", F("a"), lit(1)), "body": [E(B("eq", F("b"), lit(2))), {"k": "imp", "c": B("lt", F("k"), lit(3)), "body": [E(B("ne", F("b"), lit(0)))]}]},
+                               {"c": B("eq", F("a"), lit(2)), "body": [E(B("eq", F("b"), lit(1)))]}],
+           "els": [E(B("ne", F("b"), lit(3)))]}]
+    n2 = [{"k": "foreach", "l": "l", "v": "i", "it": False, "idx": True,
+           "body": [{"k": "if", "arms": [{"c": B("lt", SUB("l", IX("i")), lit(2)),
+                                          "body": [{"k": "imp", "c": B("eq", F("a"), lit(2)), "body": [E(B("eq", SUB("l", IX("i")), B("and", IX("i"), lit(1))))]}]}],
+                     "els": []}]}]
+    nd = [{"k": "foreach", "l": "l", "v": "j", "it": True, "idx": False,
+           "body": [{"k": "imp", "c": B("eq", F("b"), lit(0)), "body": [E(B("ne", IT("j"), lit(3)))]}]}]
+    inl = [E(B("ne", F("a"), F("k"))),
+           {"k": "foreach", "l": "l", "v": "q", "it": True, "idx": False,
+            "body": [{"k": "if", "arms": [{"c": B("eq", F("a"), lit(0)), "body": [E(B("le", IT("q"), lit(2)))]}], "els": [E(B("ge", IT("q"), lit(0)))]}]},
+           {"k": "imp", "c": B("eq", F("b"), lit(1)), "body": [E(B("ne", F("a"), lit(1)))]}]
+    fields = [fld("a", 2, False), fld("b", 2, False), fld("k", 2, False, rand=False, init=1),
+              {"name": "l", "kind": "list", "w": 2, "signed": False, "rand": True, "init": [0, 1], "cap": 4}]
+    blocks = [{"name": "n1", "dynamic": False, "body": n1}, {"name": "n2", "dynamic": False, "body": n2},
+              {"name": "nd", "dynamic": True, "body": nd}, {"name": "c3", "dynamic": False, "body": [{"k": "order", "a": ["a"], "b": ["b"]}]}]
+    world = {"classes": {"A": {"base": "", "cb": True, "fields": fields, "blocks": blocks}},
+             "population": [{"id": "o1", "cls": "A"}, {"id": "o2", "cls": "A"}, {"id": "o3", "cls": "A"}]}
+    sites = [("n1", p) for p in fault_paths(n1)] + [("n2", p) for p in fault_paths(n2)] + [("nd", p) for p in fault_paths(nd)]
+    bodies = fault_paths(inl)
+    rnd = random.Random(1670 + seed)
+    if tier == "quick":
+        nested = [s_ for s_ in sites if len(s_[1]) > 1]
+        sites = rnd.sample(nested, 8) + rnd.sample([s_ for s_ in sites if len(s_[1]) == 1], 2)
+    out = []
+    probe = lambda o: {"op": "probe", "call": wcall([], o), "paths": [o + ".a", o + ".b", o + ".l[0]", o + ".l[1]"], "cap": 256}
+    for t, (blkn, path) in enumerate(sites):
+        bp = bodies[(t * 5 + seed) % len(bodies)]
+        c_f = wcall(inl, "o3")
+        ops = [{"op": "construct", "o": "o1"}, {"op": "call", "call": mcall("o1")},
+               {"op": "construct", "o": "o2", "fault": {"cls": "A", "blk": blkn, "pos": list(path)}},
+               {"op": "call", "call": mcall("o1")}, probe("o1"),
+               {"op": "construct", "o": "o3"},
+               {"op": "call", "call": c_f, "fault": {"ph": "body", "pos": list(bp)}},
+               {"op": "call", "call": wcall(inl, "o3")}, {"op": "call", "call": wcall([E({"k": "dyn", "o": "", "b": "nd"})], "o3")},
+               probe("o3"), {"op": "call", "call": mcall("o1")}]
+        out.append({"id": "F16/nested/%s/%s/%d" % (blkn, "_".join(map(str, path)), t), "world": world, "ops": ops, "tags": []})
+    return out
